@@ -47,13 +47,22 @@ def run_harness(d, harness, timeout, extra=()):
     env['CARGO_TARGET_DIR'] = os.path.join(d, 'target_' + harness)
     cmd = ['cargo', 'kani', '-Z', 'function-contracts', '-Z', 'stubbing', '--harness', harness] + list(extra)
     t0 = time.time()
+    import signal
+    # own process group: on timeout the whole tree (cargo-kani, kani-driver, cbmc, SAT solver) is killed, nothing is orphaned
+    proc = subprocess.Popen(cmd, cwd=d, stdout=subprocess.PIPE, stderr=subprocess.STDOUT, text=True, env=env, start_new_session=True)
     try:
-        p = subprocess.run(cmd, cwd=d, capture_output=True, text=True, timeout=timeout, env=env)
-        out = p.stdout + p.stderr
-        rc = p.returncode
-    except subprocess.TimeoutExpired as ex:
-        out = ((ex.stdout or b'').decode(errors='replace') if isinstance(ex.stdout, bytes) else (ex.stdout or ''))
-        return {'harness': harness, 'status': 'timeout', 'wall_s': round(time.time() - t0, 1), 'cmd': ' '.join(cmd), 'tail': out[-800:]}
+        out, _ = proc.communicate(timeout=timeout)
+        rc = proc.returncode
+    except subprocess.TimeoutExpired:
+        try:
+            os.killpg(proc.pid, signal.SIGKILL)
+        except Exception:
+            pass
+        try:
+            out, _ = proc.communicate(timeout=30)
+        except Exception:
+            out = ''
+        return {'harness': harness, 'status': 'timeout', 'wall_s': round(time.time() - t0, 1), 'cmd': ' '.join(cmd), 'tail': (out or '')[-800:]}
     wall = round(time.time() - t0, 1)
     res = {'harness': harness, 'wall_s': wall, 'cmd': ' '.join(cmd)}
     m = re.search(r'VERIFICATION:- (SUCCESSFUL|FAILED)', out)
